@@ -294,11 +294,27 @@ func genC04Plan(rt *rapid.T) fPlan {
 		// the connection drops at a step of the client's own protocol (between an unsubscribe confirmation and the
 		// PONG that follows it, inside the MULTI of a cache fetch, during the handshake of a reconnect, ...)
 		p.IntFaults = append(p.IntFaults, fIntFault{
-			Cmd:  rapid.SampledFrom([]string{"PING", "PING", "UNSUBSCRIBE", "SUBSCRIBE", "MULTI", "EXEC", "PTTL", "HELLO"}).Draw(rt, "intCmd"),
+			Cmd:  rapid.SampledFrom([]string{"PING", "PING@UNSUB", "PING@UNSUB", "UNSUBSCRIBE", "SUBSCRIBE", "MULTI", "EXEC", "PTTL", "HELLO"}).Draw(rt, "intCmd"),
 			Nth:  rapid.IntRange(0, 2).Draw(rt, "intNth"),
 			Kind: rapid.SampledFrom([]string{"drop-before", "drop-before", "drop-after", "drop-mid"}).Draw(rt, "intKind")})
 		if f := &p.IntFaults[len(p.IntFaults)-1]; f.Cmd == "HELLO" {
 			f.Nth += 2 // NewClient dials the pipeline connection (and fails the whole client if that dial fails): only re-dials are hit
+		}
+	}
+	if len(p.IntFaults) > 0 && p.IntFaults[0].Cmd == "PING@UNSUB" {
+		for ci := range p.Callers {
+			for oi := range p.Callers[ci] {
+				if op := &p.Callers[ci][oi]; op.Kind == "receive" {
+					op.CancelUs = rapid.SampledFrom([]int{200, 2000, 10000}).Draw(rt, "recvShort")
+				}
+			}
+		}
+		if len(p.Callers) > 0 && len(p.Callers[0]) > 0 {
+			op := &p.Callers[0][0]
+			op.Kind, op.Cmds, op.Key, op.CancelUs = "receive", nil, "", rapid.SampledFrom([]int{200, 2000, 10000}).Draw(rt, "recvShort0")
+		}
+		for i := range p.Events {
+			p.Events[i].AtUs += 15000 // let the unsubscribe happen first
 		}
 	}
 	if len(p.Events) == 0 && !hangDone {
